@@ -109,9 +109,10 @@ def render_manifest(sc, cmd, ctl):
             m += "  generator = 1\n"
         if s["deps"] in ("depfile", "gcc"):
             m += "  depfile = %s.d\n" % s["outs"][0]
-        if s["deps"] == "gcc":
+        # statements with an even number bind `deps` themselves (below), the others get it from their rule
+        if s["deps"] == "gcc" and s["id"] % 2:
             m += "  deps = gcc\n"
-        if s["deps"] == "msvc":
+        if s["deps"] == "msvc" and s["id"] % 2:
             m += "  deps = msvc\n"
         if s["rsp"]:
             m += "  rspfile = %s\n  rspfile_content = %s\n" % (rsp_path(s), rsp_content(s))
@@ -133,11 +134,89 @@ def render_manifest(sc, cmd, ctl):
             m += "  pool = %s\n" % s["pool"]
         if s["dd"]:
             m += "  dyndep = %s\n" % s["dd"]
+        if s["deps"] in ("gcc", "msvc") and s["id"] % 2 == 0:
+            m += "  deps = %s\n" % s["deps"]
         if s["gen"] and s.get("genlvl") == "build":
             m += "  generator = 1\n"
         if s.get("genlvl") == "cleared":
             m += "  generator =\n"
     return m
+
+
+def blog_meaning(b):
+    """.ninja_log bytes -> {output: (mtime, command hash)}, the last record of each output (None: no file)."""
+    if b is None:
+        return {}
+    tab = {}
+    for line in b.split(b"\n")[1:]:
+        f = line.split(b"\t")
+        if len(f) == 5:
+            tab[f[3]] = (f[2], f[4])
+    return tab
+
+
+def dlog_meaning(b):
+    """.ninja_deps bytes -> {output: (mtime, [dependency paths])}, the last record of each output; a torn tail is ignored."""
+    if b is None or len(b) < 16:
+        return {}
+    paths, tab, pos = [], {}, 16
+    while pos + 4 <= len(b):
+        size = int.from_bytes(b[pos:pos + 4], "little")
+        isdeps, size = bool(size >> 31), size & 0x7fffffff
+        if pos + 4 + size > len(b):
+            break
+        rec = b[pos + 4:pos + 4 + size]
+        if isdeps:
+            w = [int.from_bytes(rec[i:i + 4], "little") for i in range(0, len(rec) - 3, 4)]
+            if len(w) >= 3 and all(x < len(paths) for x in [w[0]] + w[3:]):
+                tab[paths[w[0]]] = (w[1] | (w[2] << 32), [paths[x] for x in w[3:]])
+        else:
+            paths.append(rec[:-4].rstrip(b"\0"))
+        pos += 4 + size
+    return tab
+
+
+def logs_meaning(triple):
+    blog, dlog, lock = triple
+    return (blog_meaning(blog), dlog_meaning(dlog), lock)
+
+
+def inflate_logs(blog, dlog):
+    """Pads both logs with copies of their own records, in order, until the next open recompacts them (build log: more
+    than 100 records and 3 per output; deps log: more than 1000 deps records and 3 per output).  The meaning of the logs
+    (last record of every output) does not change."""
+    try:
+        lines = open(blog, "rb").read().split(b"\n")
+        head, recs = lines[0], [l for l in lines[1:] if l]
+        if recs:
+            n = 0
+            with open(blog, "ab") as f:
+                while n * len(recs) + len(recs) <= max(100, 3 * len(recs)) + len(recs):
+                    f.write(b"\n".join(recs) + b"\n")
+                    n += 1
+    except FileNotFoundError:
+        pass
+    try:
+        b = open(dlog, "rb").read()
+        pos = 16
+        recs = []
+        while pos + 4 <= len(b):
+            size = int.from_bytes(b[pos:pos + 4], "little")
+            isdeps = bool(size >> 31)
+            size &= 0x7fffffff
+            if pos + 4 + size > len(b):
+                break
+            if isdeps:
+                recs.append(b[pos:pos + 4 + size])
+            pos += 4 + size
+        if recs and pos == len(b):
+            n = 0
+            with open(dlog, "ab") as f:
+                while (n + 1) * len(recs) <= max(1000, 3 * len(recs)) + len(recs):
+                    f.write(b"".join(recs))
+                    n += 1
+    except FileNotFoundError:
+        pass
 
 
 def graph_json(sc):
@@ -340,6 +419,8 @@ class Execution:
                     os.remove(self.p(".ninja_deps"))
                 except FileNotFoundError:
                     pass
+            elif op == "inflate":
+                inflate_logs(self.p(".ninja_log"), self.p(".ninja_deps"))
             self.events.append({"e": "Env", "op": op, "f": f, "s": step.get("s", 0), "g": graph_json(sc), "tree": self.tree()})
         self.events.append({"e": "EndRun", "choices": list(self.ch.taken)})
 
@@ -419,7 +500,7 @@ class Execution:
                             except ValueError:
                                 pass
                 self.events.append({"e": "Tool", "tool": name, "targets": args if name in ("commands", "commands1") else [], "rc": rc,
-                                    "started": started, "pre": pre, "tree": post, "logsame": lpre == self._log_bytes(),
+                                    "started": started, "pre": pre, "tree": post, "logsame": logs_meaning(lpre) == logs_meaning(self._log_bytes()),   # the meaning of both logs (and no lock file left)
                                     "cmds": cmds, "json": js, "g": graph_json(sc)})
         finally:
             os.close(req_fd)
